@@ -49,6 +49,23 @@ CHECKS = {
             {"name": "c02-diff", "bin": "cmdglyph", "build": "inpkg:cmd/glyph", "run": "^TestC02Diff$", "quick": 30000, "thorough": 1500000},
         ],
     },
+    "C03": {
+        "level": "exploration",
+        "manifest": {
+            "technique": "differential property-based testing (rapid) across optimisation levels: the same generated route body compiled at O0/O1/O2 from parser-form, pointer-form and mixed ASTs, executed on the VM under generated bindings of its free variables",
+            "level_text": "Route bodies biased towards what the optimizer rewrites (literal and copy assignments, reassignments, x*0/x+0/x*1/x*2/true&&x shapes, constant conditions, loops, branches, switch, match) are parsed, converted to the AST form the library API accepts (pointer nodes, which is the only form the optimizer touches; also mixed and the parser's value form), compiled at every level and executed under 1-3 generated bindings (any runtime kind for the free variables); compile outcome, runtime error-ness and result value (int/float kept apart) must equal the unoptimised compilation. Three unsound rewrites pinned by the repository's own tests are recorded as findings, switched off in pointer-form generation, and attributed by a delta check (the difference must vanish when the finding's shape is neutralised).",
+            "level_note": "Side effects other than the result are not observed (the only effectful bytecode is ws.*, which the generator does not emit). JIT tiers are covered under C15. With the three findings excluded, pointer-form programs are well typed, use total operators only and have variable-dependent conditions.",
+        },
+        "rule": ("rapid-generated route bodies (<=2 routes, depth <=4, nesting <=3) in value / pointer / mixed AST form with 1-3 bindings of fv0..fv2; "
+                 "non-trivial = the optimised bytecode differs from the O0 bytecode at some level (a rewrite fired); distinct = hash of (form, source, bindings)"),
+        "assumptions": [
+            "O0 (OptNone) is the reference; the VM is the same at every level, so VM defects cancel out",
+            "programs that fail to parse after rendering are skipped (none expected)",
+        ],
+        "units": [
+            {"name": "c03-opt", "bin": "c03", "build": "harness:c03", "run": "^TestC03Opt$", "quick": 40000, "thorough": 2000000},
+        ],
+    },
     "C20": {
         "level": "exploration",
         "manifest": {
